@@ -1023,3 +1023,601 @@ def c(ctx):
         short = resolve_local(bf.node, r.value.elts[1])
         bs = match("$v.lstrip(b'\\x00') or b'\\x00'", short)
         ctx.ob("the partial IV sent is the same value without leading zero bytes (one zero byte for 0)", bs is not None and same(resolve_local(bf.node, bs["v"]), full), bf, short)
+
+
+# ---------------------------------------------------------------------------
+# C11.d
+
+# RFC 8613 section 6.1 (A.11): flag byte bits 0-2 n, bit 3 k, bit 4 h, bits 5-7 reserved (bit 5: group flag of the groupcomm draft);
+# value = flag | PIV (n bytes) | [s (1 byte) | kid context (s bytes)] if h | [kid (rest)] if k; empty when the flag byte is zero.
+REF_FLAGS = {"COMPRESSION_BITS_N": 0b111, "COMPRESSION_BIT_K": 0b1000, "COMPRESSION_BIT_H": 0b10000, "COMPRESSION_BITS_RESERVED": 0b11000000}
+REF_GROUP_BIT = ("COMPRESSION_BIT_GROUP", 0b100000)
+REF_OPTION = [
+    (0b111, [("COSE_PIV", "flagbits")]),
+    (0b10000, [("len",), ("COSE_KID_CONTEXT", "lenbyte")]),
+    (0b1000, [("COSE_KID", "rest")]),
+]
+MAX_CONTEXT = 255
+
+
+def _const_int(e, consts):
+    try:
+        v = norm.consteval(e, consts)
+    except norm.NormError:
+        return None
+    return v if isinstance(v, int) and not isinstance(v, bool) else None
+
+
+def _flag_mask(fn, test, flagvars, consts, P):
+    """int mask for `flag & CONST`, 'nonempty' for tests of the option being empty, else None."""
+    t = resolve_local(fn, test)
+    if isinstance(t, ast.BinOp) and isinstance(t.op, ast.BitAnd):
+        for f, c in ((t.left, t.right), (t.right, t.left)):
+            if isinstance(f, ast.Name) and f.id in flagvars:
+                return _const_int(c, consts)
+    if isinstance(t, ast.Name) and t.id == P:
+        return "nonempty"
+    if isinstance(t, ast.Compare) and len(t.ops) == 1 and {chain(t.left), chain(t.comparators[0])} & {P}:
+        return "nonempty"
+    if isinstance(t, ast.Name) and t.id in flagvars:
+        return "nonempty"
+    return None
+
+
+def _is_validation_guard(cfg, pid):
+    """The branch outcome pid is the surviving side of a test whose other side never returns normally."""
+    tests = [p for p, lab in cfg.pred[pid] if lab in ("T", "F")]
+    if len(tests) != 1:
+        return False
+    sib = [s for s, lab in cfg.succ[tests[0]] if lab in ("T", "F") and s != pid]
+    return bool(sib) and all(cfg.exit not in cfg.reach({s}, skip_labels=("exc",), include_src=True) for s in sib)
+
+
+def _reader_layout(ctx, prog, fi, consts):
+    fn = fi.node
+    fl = Flow(prog, fi)
+    cfg = fl.cfg
+    pn = params(fi)
+    ctx.need(len(pn) == 2, "_uncompress signature changed")
+    P = pn[0]
+    ctx.need(not [d for d in fl.defs if d.name == P and d.kind != "param"], "_uncompress rebinds the option parameter")
+
+    def sub_of(e, names):
+        return isinstance(e, ast.Subscript) and isinstance(e.value, ast.Name) and e.value.id in names
+
+    flagvars = {d.name for d in fl.defs if d.kind == "assign" and sub_of(d.value, {P}) and isinstance(d.value.slice, ast.Constant) and d.value.slice.value == 0}
+    ctx.need(len(flagvars) == 1, "_uncompress: the flag byte is not read as <option>[0] into one local")
+    for d in fl.defs:
+        if d.name in flagvars and not (sub_of(d.value, {P}) or (isinstance(d.value, ast.Constant) and d.value.value == 0)):
+            raise AnalysisError("C11.d: the flag byte local has a definition the rule cannot interpret: %s" % stmt_text(d.stmt))
+
+    def tail_from(e, names):
+        return sub_of(e, names) and isinstance(e.slice, ast.Slice) and e.slice.upper is None and e.slice.step is None and e.slice.lower is not None
+
+    cursors = {d.name for d in fl.defs if d.kind == "assign" and tail_from(d.value, {P}) and _const_int(d.value.slice.lower, consts) == 1}
+    ctx.need(len(cursors) == 1, "_uncompress: no single cursor local initialised as <option>[1:]")
+    events = []
+    used = set()
+    for d in fl.defs:
+        if d.name in cursors:
+            if d.kind == "assign" and tail_from(d.value, {P}):
+                events.append({"k": "adv", "nid": d.nid, "n": d.value.slice.lower, "node": d.stmt, "init": True})
+            elif d.kind == "assign" and tail_from(d.value, cursors):
+                events.append({"k": "adv", "nid": d.nid, "n": d.value.slice.lower, "node": d.stmt, "init": False})
+            else:
+                raise AnalysisError("C11.d: cursor update outside the rule's idioms: %s" % stmt_text(d.stmt))
+            used.add(id(d.value))
+        elif d.kind == "assign" and sub_of(d.value, cursors) and not isinstance(d.value.slice, ast.Slice):
+            i = _const_int(d.value.slice, consts)
+            ctx.need(i is not None, "_uncompress: non-constant index into the cursor")
+            events.append({"k": "idx", "nid": d.nid, "name": d.name, "i": i, "node": d.stmt})
+            used.add(id(d.value))
+    rets = [n for n in walk_no_nested(fn) if isinstance(n, ast.Return)]
+    ctx.need(len(rets) >= 1 and all(isinstance(r.value, ast.Tuple) and len(r.value.elts) == 4 for r in rets), "_uncompress does not return a 4-tuple")
+    dicts = {r.value.elts[2].id for r in rets if isinstance(r.value.elts[2], ast.Name)}
+    ctx.need(len(dicts) == 1, "_uncompress: the unprotected map is not one local")
+    U = next(iter(dicts))
+    flagonly = {}
+    for root, path, val, nid, stmt, kind in fl.stores:
+        if root != U or kind != "store":
+            continue
+        tgt = stmt.targets[0] if isinstance(stmt, ast.Assign) and len(stmt.targets) == 1 else None
+        key = _cose_key(prog, fi, tgt.slice) if isinstance(tgt, ast.Subscript) else None
+        ctx.need(key is not None, "_uncompress: store into the unprotected map that is not map[COSE_*] = value")
+        v = resolve_local(fn, val)
+        if sub_of(v, cursors) and isinstance(v.slice, ast.Slice) and v.slice.step is None and v.slice.upper is not None:
+            events.append({"k": "read", "nid": nid, "key": key, "lo": v.slice.lower, "hi": v.slice.upper, "node": stmt})
+            used.add(id(v))
+        elif isinstance(v, ast.Name) and v.id in cursors:
+            events.append({"k": "rest", "nid": nid, "key": key, "node": stmt})
+            used.add(id(v))
+        elif any(isinstance(x, ast.Name) and x.id in cursors for x in ast.walk(v)):
+            raise AnalysisError("C11.d: field extraction outside the rule's idioms: %s" % stmt_text(stmt))
+        else:
+            flagonly[key] = nid
+    # every other use of the cursor must be a test
+    for x in walk_no_nested(fn):
+        if isinstance(x, ast.Name) and x.id in cursors and isinstance(x.ctx, ast.Load):
+            par = cfg.parent.get(id(x))
+            if id(par) in used or id(x) in used:
+                continue
+            locs = cfg.locate(x)
+            if locs and cfg.nodes[locs[0]].kind == "test":
+                continue
+            if any(isinstance(s, ast.Assign) and s.value is x for s in [cfg.nodes[l].ast for l in locs]):
+                continue  # plain copy, resolved through resolve_local above
+            raise AnalysisError("C11.d: the cursor is used in a way the rule cannot interpret: %s" % stmt_text(cfg.nodes[locs[0]].ast if locs else x))
+    # layout guards
+    def mask_of(nid):
+        ms = []
+        for test, pol, pid in cfg.guards(nid):
+            if _is_validation_guard(cfg, pid):
+                continue
+            m = _flag_mask(fn, test, flagvars, consts, P)
+            if m == "nonempty":
+                continue
+            if m is None or pol is not True:
+                raise AnalysisError("C11.d: _uncompress: layout depends on a condition the rule cannot interpret: %s" % stmt_text(test))
+            ms.append(m)
+        return ms
+    for ev in events:
+        ms = mask_of(ev["nid"])
+        if ev.get("init"):
+            ctx.need(not ms, "_uncompress: the flag byte is skipped only conditionally")
+            ev["mask"] = 0
+        else:
+            ctx.need(len(ms) == 1, "_uncompress: a field is read under %d flag conditions" % len(ms))
+            ev["mask"] = ms[0]
+    nids = {ev["nid"] for ev in events}
+    for ev in events:
+        ev["after"] = len(cfg.reach({ev["nid"]}) & nids)
+        ctx.need(ev["nid"] not in cfg.reach({ev["nid"]}), "_uncompress: field extraction inside a loop")
+    events.sort(key=lambda ev: -ev["after"])
+    for x, y in zip(events, events[1:]):
+        ctx.need(y["nid"] in cfg.reach({x["nid"]}) and x["nid"] not in cfg.reach({y["nid"]}), "_uncompress: extraction steps are not totally ordered")
+    env = {k: v for k, v in norm.local_env(fn).items() if k not in {e["name"] for e in events if e["k"] == "idx"} and k not in cursors}
+    N = Normalizer(env=env, penv={k: Poly.const(v) for k, v in consts.items()})
+    blocks = []
+    tiling = []
+    for ev in events:
+        if ev.get("init"):
+            ctx.need(_const_int(ev["n"], consts) == 1, "the reader does not skip exactly the flag byte")
+            continue
+        if not blocks or blocks[-1]["mask"] != ev["mask"]:
+            ctx.need(all(b["mask"] != ev["mask"] for b in blocks), "_uncompress: steps for one flag are not contiguous")
+            blocks.append({"mask": ev["mask"], "rel": Poly.const(0), "spans": [], "items": [], "lens": {}, "first": ev["node"]})
+        b = blocks[-1]
+        if ev["k"] == "adv":
+            b["rel"] = b["rel"] + N.poly(ev["n"])
+        elif ev["k"] == "idx":
+            b["spans"].append((b["rel"] + Poly.const(ev["i"]), b["rel"] + Poly.const(ev["i"] + 1)))
+            b["items"].append(("len",))
+            b["lens"][ev["name"]] = True
+        elif ev["k"] == "read":
+            lo = N.poly(ev["lo"]) if ev["lo"] is not None else Poly.const(0)
+            b["spans"].append((b["rel"] + lo, b["rel"] + N.poly(ev["hi"])))
+            length = N.poly(ev["hi"]) - lo
+            if any(length == Poly.atom(nm) for nm in b["lens"]):
+                kind = "lenbyte"
+            elif any(length == N.poly(ast.parse("%s & %d" % (fv, ev["mask"]), mode="eval").body) for fv in flagvars):
+                kind = "flagbits"
+            else:
+                kind = "expr:%r" % (length,)
+            b["items"].append((ev["key"], kind))
+        else:
+            b["spans"].append((b["rel"], None))
+            b["items"].append((ev["key"], "rest"))
+    for i, b in enumerate(blocks):
+        ok = bool(b["spans"]) and b["spans"][0][0] == Poly.const(0)
+        for (s0, e0), (s1, e1) in zip(b["spans"], b["spans"][1:]):
+            ok = ok and e0 is not None and e0 == s1
+        last = b["spans"][-1][1] if b["spans"] else None
+        if last is None:
+            ok = ok and i == len(blocks) - 1
+        else:
+            ok = ok and last == b["rel"]
+        tiling.append((b, ok))
+    return [(b["mask"], b["items"]) for b in blocks], tiling, flagonly, flagvars, U, fl
+
+
+def _writer_layout(ctx, prog, fi, consts):
+    fn = fi.node
+    fl = Flow(prog, fi)
+    cfg = fl.cfg
+    pn = params(fi)
+    ctx.need(len(pn) == 3, "_compress signature changed")
+    U = pn[1]
+    rets = [n for n in walk_no_nested(fn) if isinstance(n, ast.Return)]
+    ctx.need(rets and all(isinstance(r.value, ast.Tuple) and len(r.value.elts) == 2 for r in rets), "_compress does not return a pair")
+    res = {"concats": [], "empties": [], "U": U, "fl": fl}
+
+    def dict_key(e, nid):
+        ts = fl.terminals(e, nid)
+        if len(ts) != 1 or not isinstance(ts[0][0], ast.AST):
+            return None, None
+        t = ts[0][0]
+        if isinstance(t, ast.Call) and isinstance(t.func, ast.Attribute) and chain(t.func.value) == U and t.func.attr in ("pop", "get") and t.args:
+            return _cose_key(prog, fi, t.args[0]), t
+        if isinstance(t, ast.Subscript) and chain(t.value) == U:
+            return _cose_key(prog, fi, t.slice), t
+        return None, None
+
+    def in_key(conds, pol):
+        b = cond_has(fn, conds, "$k in %s" % U, pol)
+        return _cose_key(prog, fi, b["k"]) if b else None
+
+    for r in rets:
+        for t, tn, conds in fl.terminals(r.value.elts[0], fl.node_of(r)):
+            if isinstance(t, ast.Constant) and t.value == b"":
+                res["empties"].append((t, tn, conds))
+                continue
+            ctx.need(isinstance(t, ast.AST), "_compress: option value defined in a way the rule cannot interpret")
+            ops = _flatten_add(t, {})
+            fb = _single_byte_of(ops[0])
+            ctx.need(isinstance(fb, ast.Name), "_compress: the option does not start with bytes([flag])")
+            blocks = []
+            for pos, op in enumerate(ops[1:]):
+                alts = fl.terminals(op, tn)
+                blk = {"op": op, "key": None, "items": None, "empty_ok": None, "node": None, "lenexpr": None, "cond": None, "last": pos == len(ops) - 2}
+                for at, an, ac in alts:
+                    if isinstance(at, ast.Constant) and at.value == b"":
+                        blk["empty_ok"] = in_key(ac, False)
+                        continue
+                    ctx.need(isinstance(at, ast.AST), "_compress: option segment defined in a way the rule cannot interpret")
+                    items = []
+                    for so in _flatten_add(at, {}):
+                        sb = _single_byte_of(so)
+                        if sb is not None:
+                            lt = fl.terminals(sb, an)
+                            le = lt[0][0] if len(lt) == 1 and isinstance(lt[0][0], ast.AST) else None
+                            k = None
+                            if isinstance(le, ast.Call) and chain(le.func) == "len" and len(le.args) == 1:
+                                k, _ = dict_key(le.args[0], lt[0][1])
+                            items.append(("len", k))
+                            blk["lenexpr"] = sb
+                        else:
+                            k, call = dict_key(so, an)
+                            items.append(("field", k, call))
+                    ctx.need(blk["items"] is None, "_compress: an option segment has two non-empty definitions")
+                    blk["items"], blk["node"], blk["cond"], blk["nid"] = items, at, in_key(ac, True), an
+                ctx.need(blk["items"] is not None, "_compress: an option segment is always empty")
+                blocks.append(blk)
+            res["concats"].append({"expr": t, "nid": tn, "flag": fb.id, "blocks": blocks, "conds": conds})
+    ctx.need(len(res["concats"]) == 1, "_compress: %d option concatenations" % len(res["concats"]))
+    F = res["concats"][0]["flag"]
+    res["bits"] = {}
+    res["base"] = None
+    for d in fl.defs:
+        if d.name != F:
+            continue
+        if d.kind == "aug" and isinstance(d.stmt.op, ast.BitOr):
+            m = _const_int(d.value, consts)
+        elif d.kind == "assign" and isinstance(d.value, ast.BinOp) and isinstance(d.value.op, ast.BitOr) and isinstance(d.value.left, ast.Name) and d.value.left.id == F:
+            m = _const_int(d.value.right, consts)
+        elif d.kind == "assign" and isinstance(d.value, ast.Call) and chain(d.value.func) == "len" and len(d.value.args) == 1:
+            ctx.need(res["base"] is None, "_compress: two base definitions of the flag byte")
+            res["base"] = (d, dict_key(d.value.args[0], d.nid)[0])
+            continue
+        else:
+            raise AnalysisError("C11.d: _compress: flag byte definition outside the rule's idioms: %s" % stmt_text(d.stmt))
+        ctx.need(m is not None, "_compress: flag bit is not a module constant")
+        k = in_key(tuple(guard_exprs(cfg, d.nid)), True)
+        res["bits"].setdefault(k, []).append((m, d))
+    ctx.need(res["base"] is not None, "_compress: the flag byte does not start as len(<partial IV>)")
+    return res
+
+
+@R.clause("C11.d", "OSCORE option compression: flag constants, writer layout of _compress, reader layout of _uncompress and RFC 8613 section 6.1 agree; reserved bits refused")
+def d(ctx):
+    prog = ctx.prog
+    consts = module_int_consts(prog, "oscore")
+    for name, val in sorted(REF_FLAGS.items()) + [REF_GROUP_BIT]:
+        ctx.ob("%s == %s" % (name, bin(val)), consts.get(name) == val, None, None, construct="%s = %s" % (name, bin(consts[name]) if name in consts else "?"))
+    allbits = [consts.get(n, 0) for n in list(REF_FLAGS) + [REF_GROUP_BIT[0]]]
+    ctx.ob("the flag fields are disjoint and cover the byte", sum(allbits) == 0xFF and all(a & b == 0 for i, a in enumerate(allbits) for b in allbits[i + 1:]), None, None,
+           construct="COMPRESSION_* constants")
+    nmask = REF_FLAGS["COMPRESSION_BITS_N"]
+
+    # ---- writer ------------------------------------------------------------------
+    wf = prog.func(CP + "_compress")
+    W = _writer_layout(ctx, prog, wf, consts)
+    wfl, wcfg = W["fl"], W["fl"].cfg
+    con = W["concats"][0]
+    based, basekey = W["base"]
+    wl = []
+    ctx.ob("the low flag bits carry the length of the partial IV", basekey == "COSE_PIV", wf, based.stmt)
+    Nw = Normalizer(env=norm.local_env(wf.node), penv={k: Poly.const(v) for k, v in consts.items()})
+    want = Nw.negate(Nw.cmp(ast.parse("len(%s) > %d" % (ast.unparse(based.value.args[0]), nmask), mode="eval").body))
+    ctx.ob("a partial IV longer than %d bytes is refused by the writer" % nmask, want in cmp_guard_nf(wcfg, con["nid"], Nw), wf, based.stmt,
+           detail="guards at the concatenation: %s" % sorted(map(repr, cmp_guard_nf(wcfg, con["nid"], Nw))), construct="len(piv) <= COMPRESSION_BITS_N")
+    for blk in con["blocks"]:
+        items = blk["items"]
+        fields = [i for i in items if i[0] == "field"]
+        key = fields[0][1] if len(fields) == 1 else None
+        if blk["cond"] is None and blk["empty_ok"] is None:
+            # unconditional segment: the partial IV
+            call = fields[0][2] if fields else None
+            dflt = isinstance(call, ast.Call) and len(call.args) == 2 and isinstance(call.args[1], ast.Constant) and call.args[1].value == b""
+            ctx.ob("the unconditional segment is the partial IV (empty when absent)", key == "COSE_PIV" and len(items) == 1 and dflt, wf, blk["node"])
+            wl.append((nmask, [(key, "flagbits")]))
+            continue
+        bits = W["bits"].get(blk["cond"], [])
+        ctx.ob("segment %s is written exactly when its flag bit is set" % key, blk["cond"] is not None and blk["cond"] == key and blk["empty_ok"] == key and len(bits) == 1, wf, blk["node"],
+               detail="non-empty when %s present, empty when %s absent, bits %s" % (blk["cond"], blk["empty_ok"], [bin(m) for m, _ in bits]))
+        mask = bits[0][0] if bits else None
+        if len(items) == 2 and items[0] == ("len", key):
+            wl.append((mask, [("len",), (key, "lenbyte")]))
+            wantl = Nw.negate(Nw.cmp(ast.parse("%s > %d" % (ast.unparse(blk["lenexpr"]), MAX_CONTEXT), mode="eval").body))
+            ctx.ob("a length-prefixed segment longer than %d bytes is refused by the writer" % MAX_CONTEXT, wantl in cmp_guard_nf(wcfg, blk["nid"], Nw), wf, blk["node"],
+                   construct="len(%s) <= %d" % (key, MAX_CONTEXT))
+        elif len(items) == 1 and blk["last"]:
+            wl.append((mask, [(key, "rest")]))
+        else:
+            wl.append((mask, [(key, "unbounded")] if len(items) == 1 else [(i[0], i[1]) for i in items]))
+    extra = {k: v for k, v in W["bits"].items() if k not in {b["cond"] for b in con["blocks"]}}
+    for k, lst in sorted(extra.items(), key=lambda kv: str(kv[0])):
+        for m, dd in lst:
+            ctx.ob("a flag bit without a segment is the group flag", m == REF_GROUP_BIT[1] and k == "COSE_COUNTERSIGNATURE0", wf, dd.stmt)
+    ctx.ob("writer layout = flag | PIV | [s | kid context] | [kid] (RFC 8613 section 6.1)", wl == REF_OPTION, wf, con["expr"], detail="writer: %r" % (wl,),
+           construct="option layout of _compress")
+    for t, tn, conds in W["empties"]:
+        ctx.ob("the option is left empty only when the flag byte is zero (no field is dropped)", cond_has(wf.node, conds, con["flag"], False) is not None, wf, t,
+               construct="option = b'' when flag == 0")
+
+    # ---- reader -------------------------------------------------------------------
+    rf = prog.func(CU + "_uncompress")
+    rl, tiling, flagonly, flagvars, U, rfl = _reader_layout(ctx, prog, rf, consts)
+    rcfg = rfl.cfg
+    for b, ok in tiling:
+        ctx.ob("the reader consumes the bytes of the segment for flag %s contiguously and completely" % bin(b["mask"]), ok, rf, b["first"],
+               detail="spans %r, advanced %r" % (b["spans"], b["rel"]), construct="segment %s of _uncompress" % bin(b["mask"]))
+    ctx.ob("reader layout = flag | PIV | [s | kid context] | [kid] (RFC 8613 section 6.1)", rl == REF_OPTION, rf, rf.node, detail="reader: %r" % (rl,),
+           construct="option layout of _uncompress")
+    ctx.ob("writer and reader agree on the order and framing of the option fields", rl == wl, rf, rf.node, detail="writer %r / reader %r" % (wl, rl),
+           construct="_compress vs _uncompress")
+    for key, nid in sorted(flagonly.items()):
+        ms = [_flag_mask(rf.node, t, flagvars, consts, params(rf)[0]) for t, pol, pid in rcfg.guards(nid) if not _is_validation_guard(rcfg, pid)]
+        ctx.ob("a flag without a segment is the group flag", key == "COSE_COUNTERSIGNATURE0" and [m for m in ms if m != "nonempty"] == [REF_GROUP_BIT[1]], rf, rcfg.nodes[nid].ast)
+    # reserved bits
+    resv = REF_FLAGS["COMPRESSION_BITS_RESERVED"]
+    rets = [rcfg.loc1(n) for n in walk_no_nested(rf.node) if isinstance(n, ast.Return)]
+    for rn in rets:
+        hit = [(t, pol, pid) for t, pol, pid in rcfg.guards(rn) if _flag_mask(rf.node, t, flagvars, consts, params(rf)[0]) == resv and pol is False]
+        ctx.ob("_uncompress returns only when no reserved flag bit is set", bool(hit), rf, rcfg.nodes[rn].ast)
+    raises = [n for n in walk_no_nested(rf.node) if isinstance(n, ast.Raise)]
+    n_res = 0
+    for rz in raises:
+        g = [(t, pol) for t, pol, pid in rcfg.guards(rcfg.loc1(rz)) if _flag_mask(rf.node, t, flagvars, consts, params(rf)[0]) == resv and pol is True]
+        if g:
+            n_res += 1
+            cls = qn(prog, rf, rz.exc.func if isinstance(rz.exc, ast.Call) else rz.exc) if rz.exc is not None else None
+            ctx.ob("reserved flag bits are refused with a DecodeError", cls is not None and prog.is_subclass(cls, "aiocoap.oscore.DecodeError"), rf, rz, detail="class %s" % cls)
+    ctx.ob("there is a refusal of reserved flag bits", n_res >= 1, rf, rf.node, construct="reserved bits test of _uncompress")
+    for r in [n for n in walk_no_nested(rf.node) if isinstance(n, ast.Return)]:
+        v = r.value
+        ok = (isinstance(v.elts[0], ast.Constant) and v.elts[0].value == b"" and isinstance(v.elts[1], ast.Dict) and not v.elts[1].keys
+              and rfl.src(v.elts[3], rfl.node_of(r)) == {(("param", params(rf)[1]), "", True)})
+        ctx.ob("_uncompress yields an empty protected map and hands the payload through as the ciphertext", ok, rf, r)
+
+
+# ---------------------------------------------------------------------------
+# C11.e
+
+def _allowed_exc(prog, cls):
+    return cls in prog.classes and (prog.is_subclass(cls, PI) or prog.is_subclass(cls, NAPM))
+
+
+def _origin_nodes(ofi, esc):
+    """AST nodes of the origin function whose normalised text is the escape's origin text."""
+    out = []
+    for n in walk_no_nested(ofi.node):
+        if isinstance(n, (ast.Raise, ast.Subscript, ast.Call, ast.Assign, ast.Attribute)) and esc.text in (stmt_text(n, 100), stmt_text(n, 80), stmt_text(n, 60)):
+            out.append(n)
+    return out
+
+
+@R.clause("C11.e", "pre-authentication failures are protection errors: escape sets of _extract_encrypted0/_uncompress and of unprotect's own raising sites before decrypt")
+def e(ctx):
+    prog = ctx.prog
+    for cls, base in (("oscore.DecodeError", PI), ("oscore.ReplayError", PI), ("oscore.ProtectionInvalid", "aiocoap.error.Error"), ("oscore.NotAProtectedMessage", "aiocoap.error.Error")):
+        ci = prog.cls(cls)
+        ctx.ob("%s derives from %s" % (cls, base), prog.is_subclass(ci.qn, base), None, None, construct="class %s" % cls)
+    EA = EscapeAnalysis(prog)
+    seen = set()
+    n_allowed = 0
+    for short in (CU + "_uncompress", CU + "_extract_encrypted0"):
+        fi = prog.func(short)
+        escs = EA.escapes(fi)
+        ctx.floor("escapes of %s" % short, len(escs), 3)
+        for esc in sorted(escs, key=repr):
+            if esc.key() in seen:
+                continue
+            seen.add(esc.key())
+            ofi = prog.func(esc.func) if prog.has_func(esc.func) else fi
+            nodes = _origin_nodes(ofi, esc)
+            node = nodes[0] if nodes else ofi.node
+            ok = _allowed_exc(prog, esc.cls)
+            n_allowed += ok
+            stmt = stmt_of(ofi, node) if nodes and cfg_of(ofi).locate(node) else node
+            ctx.ob("decoding the OSCORE option of an unauthenticated message fails only with ProtectionInvalid (or NotAProtectedMessage)", ok, ofi, stmt,
+                   detail="%s can escape from `%s`%s" % (esc.cls, esc.text, (" via " + " > ".join(esc.via)) if esc.via else ""))
+    ctx.floor("protection-error origins in option decoding", n_allowed, 4)
+    unres = [u for u in EA.unresolved if u[0] in (CU + "_uncompress", CU + "_extract_encrypted0")]
+    ctx.need(not unres, "unresolved calls inside the option decoding region: %s" % unres)
+    # unprotect: raising sites located in unprotect itself and not dominated by decrypt
+    fi = prog.func(CU + "unprotect")
+    cfg = cfg_of(fi)
+    decs = [cfg.loc1(d) for d in _decrypt_calls(fi)]
+    ctx.floor("decrypt calls in unprotect", len(decs), 1)
+    escs = EA.escapes(fi)
+    own = 0
+    for esc in sorted(escs, key=repr):
+        if esc.func != fi.short:
+            continue
+        nodes = [n for n in _origin_nodes(fi, esc) if cfg.locate(n)]
+        ctx.need(nodes, "cannot locate the origin `%s` in unprotect" % esc.text)
+        pre = [n for n in nodes if not any(cfg.dominates(dn, cfg.loc1(n)) for dn in decs)]
+        if not pre:
+            continue
+        own += 1
+        ctx.ob("before decryption unprotect itself fails only with ProtectionInvalid", _allowed_exc(prog, esc.cls), fi, stmt_of(fi, pre[0]),
+               detail="%s can escape from `%s`" % (esc.cls, esc.text))
+    ctx.floor("raising sites of unprotect before decrypt", own, 8)
+    other = sorted({"%s from %s" % (x.cls.split(".")[-1], x.func) for x in escs if x.func != fi.short and not _allowed_exc(prog, x.cls)})
+    if other:
+        ctx.note("not decided: callees of unprotect other than _extract_encrypted0 can raise %s" % "; ".join(other))
+    ctx.extra["C11.e implicit_sites"] = sorted(set(map(str, EA.implicit_sites)))
+    ctx.extra["C11.e unresolved (outside the decided region)"] = sorted(set(map(str, EA.unresolved)))
+
+
+# ---------------------------------------------------------------------------
+# C11.f
+
+@R.clause("C11.f", "KID / KID-context comparison and the length check dominate decrypt; decrypt failures propagate; every return is dominated by decrypt")
+def f(ctx):
+    prog = ctx.prog
+    fi = prog.func(CU + "unprotect")
+    fl = Flow(prog, fi)
+    cfg = fl.cfg
+    decs = _decrypt_calls(fi)
+    ctx.floor("decrypt calls in unprotect", len(decs), 1)
+    ctx.ob("there is exactly one decryption site", len(decs) == 1, fi, decs[-1], detail="%d sites" % len(decs))
+    for d in decs:
+        dn = cfg.loc1(d)
+        guards = cfg.guards(dn)
+        facts = {}
+        for test, pol, pid in guards:
+            t = resolve_local(fi.node, test)
+            if isinstance(t, ast.Compare) and len(t.ops) == 1 and isinstance(t.ops[0], (ast.Eq, ast.NotEq)):
+                for x, y in ((t.left, t.comparators[0]), (t.comparators[0], t.left)):
+                    key = _dict_read(prog, fi, resolve_local(fi.node, x))
+                    if key and chain(y):
+                        equal = isinstance(t.ops[0], ast.Eq) == pol
+                        facts[key] = (chain(y), equal, pid)
+        for key, attr, what in (("COSE_KID_CONTEXT", "self.id_context", "ID context"), ("COSE_KID", "self.recipient_id", "key ID")):
+            got = facts.get(key)
+            ok = got is not None and got[0] == attr and got[1] is True and _is_validation_guard(cfg, got[2])
+            ctx.ob("decrypt is reached only when the %s of the OSCORE option equals the context's (mismatch raises)" % what, ok, fi, d,
+                   detail="fact at decrypt: %r" % (got[:2] if got else None,), construct="%s comparison dominates decrypt" % what)
+        ctx.need(len(d.args) == 4, "decrypt call with unexpected arity")
+        c0 = d.args[0]
+        Nn = Normalizer()
+        if isinstance(c0, ast.Name):
+            want = Nn.negate(Nn.cmp(ast.parse("len(%s) < self.alg_aead.tag_bytes + 1" % c0.id, mode="eval").body))
+            hit = None
+            for test, pol, pid in guards:
+                try:
+                    cf = Nn.cmp(test)
+                except norm.NormError:
+                    continue
+                if (cf if pol else Nn.negate(cf)) == want:
+                    hit = pid
+            fresh = hit is not None and {x.key() for x in fl.reaching(c0.id, dn)} == {x.key() for x in fl.reaching(c0.id, hit)}
+            ctx.ob("the ciphertext handed to decrypt is at least tag length + 1 (checked on the value that is decrypted)", bool(fresh), fi, d,
+                   construct="minimum length check dominates decrypt")
+        else:
+            ctx.ob("the ciphertext handed to decrypt is a checked local", False, fi, d)
+        # failures propagate
+        p = cfg.parent.get(id(stmt_of(fi, d)))
+        tries = []
+        node = stmt_of(fi, d)
+        while node is not None and node is not fi.node:
+            par = cfg.parent.get(id(node))
+            if isinstance(par, ast.Try) and any(node is s for s in par.body):
+                tries.append(par)
+            node = par
+        for tr in tries:
+            for h in tr.handlers:
+                hn = cfg.loc1(h)
+                ctx.ob("a failing decrypt never leads to a normal return (the handler re-raises on all paths)", cfg.exit not in cfg.reach({hn}), fi, h,
+                       construct="except %s around decrypt" % (ast.unparse(h.type) if h.type is not None else ""))
+        rets = [n for n in walk_no_nested(fi.node) if isinstance(n, ast.Return)]
+        ctx.floor("returns of unprotect", len(rets), 1)
+        for r in rets:
+            rn = cfg.loc1(r)
+            ctx.ob("every return of unprotect is dominated by the decryption", cfg.dominates(dn, rn), fi, r)
+            if isinstance(r.value, ast.Tuple) and r.value.elts:
+                ls = fl.src(r.value.elts[0], rn)
+                ctx.ob("the message returned is built from the decrypted plaintext", any(l[1].endswith(".decrypt()") or ".decrypt()[" in l[1] for l in ls), fi, r)
+        ctx.ob("falling off the end of unprotect is dominated by the decryption", all(cfg.dominates(dn, p0) for p0, lab in cfg.pred[cfg.exit]), fi, d,
+               construct="normal exit of unprotect")
+
+
+# ---------------------------------------------------------------------------
+# C11.g
+
+AEAD_WRAPPERS = ("oscore.AES_CCM", "oscore.AES_GCM", "oscore.ChaCha20Poly1305")
+LIB_AEAD = "cryptography.hazmat.primitives.ciphers.aead."
+
+
+def _raise_class(prog, fi, rz):
+    if rz.exc is None:
+        return None
+    return qn(prog, fi, rz.exc.func if isinstance(rz.exc, ast.Call) else rz.exc)
+
+
+@R.clause("C11.g", "every AEAD wrapper maps InvalidTag to ProtectionInvalid; AES_CBC.decrypt raises only ProtectionInvalid; all algorithms use a checked wrapper")
+def g(ctx):
+    prog = ctx.prog
+    checked = set()
+    for cls in AEAD_WRAPPERS:
+        fi = prog.func(cls + ".decrypt")
+        checked.add(fi.qn)
+        cfg = cfg_of(fi)
+        lib = [c for c in walk_no_nested(fi.node) if isinstance(c, ast.Call) and isinstance(c.func, ast.Attribute) and c.func.attr == "decrypt"
+               and isinstance(c.func.value, ast.Call) and (qn(prog, fi, c.func.value.func) or "").startswith(LIB_AEAD)]
+        ctx.floor("library decrypt calls in %s.decrypt" % cls, len(lib), 1)
+        for c in lib:
+            st = stmt_of(fi, c)
+            par = cfg.parent.get(id(st))
+            handlers = par.handlers if isinstance(par, ast.Try) and any(st is s for s in par.body) else []
+            catching = []
+            for h in handlers:
+                names = [] if h.type is None else ([h.type] if not isinstance(h.type, ast.Tuple) else list(h.type.elts))
+                qs = [prog.resolve_in_module(fi.module, chain(x) or "?") for x in names]
+                if h.type is None or any(q.split(".")[-1] in ("InvalidTag", "Exception", "BaseException") for q in qs):
+                    catching.append(h)
+            ctx.ob("the library's InvalidTag is caught around the decryption", bool(catching), fi, c, construct="%s.decrypt: handler for InvalidTag" % cls)
+            for h in handlers:
+                hn = cfg.loc1(h)
+                reach = cfg.reach({hn}, include_src=True)
+                ctx.ob("a failed tag check never yields a plaintext (the handler cannot reach a normal return)", cfg.exit not in reach, fi, h,
+                       construct="%s.decrypt: except %s" % (cls, ast.unparse(h.type) if h.type is not None else ""))
+                rz = [cfg.nodes[n].ast for n in reach if cfg.nodes[n].kind == "raise"]
+                bad = [r for r in rz if not (_raise_class(prog, fi, r) in prog.classes and prog.is_subclass(_raise_class(prog, fi, r), PI))]
+                ctx.ob("the handler raises ProtectionInvalid", bool(rz) and not bad, fi, bad[0] if bad else h,
+                       construct="%s.decrypt: %s" % (cls, stmt_text(bad[0]) if bad else "raise ProtectionInvalid"))
+            for r in [n for n in walk_no_nested(fi.node) if isinstance(n, ast.Return)]:
+                v = resolve_local(fi.node, r.value) if r.value is not None else None
+                ctx.ob("the wrapper returns what the library decrypted", v is c, fi, r, construct="%s.decrypt: %s" % (cls, stmt_text(r)))
+    EA = EscapeAnalysis(prog)
+    fi = prog.func("oscore.AES_CBC.decrypt")
+    checked.add(fi.qn)
+    escs = EA.escapes(fi)
+    ctx.floor("raising sites of AES_CBC.decrypt", len(escs), 2)
+    for esc in sorted(escs, key=repr):
+        nodes = _origin_nodes(fi, esc) if esc.func == fi.short else []
+        ctx.ob("AES_CBC.decrypt fails only with ProtectionInvalid", esc.cls in prog.classes and prog.is_subclass(esc.cls, PI), fi, stmt_of(fi, nodes[0]) if nodes else fi.node,
+               detail="%s can escape from `%s`" % (esc.cls, esc.text))
+    n = 0
+    for sub in prog.subclasses("aiocoap.oscore.SymmetricEncryptionAlgorithm"):
+        ci = prog.classes[sub]
+        if "value" not in ci.attrs:
+            continue  # abstract family class
+        n += 1
+        m = prog.lookup_method(sub, "decrypt")
+        ctx.ob("algorithm %s decrypts through a checked wrapper" % sub.split(".")[-1], m is not None and m.qn in checked, None, None,
+               construct="%s.decrypt -> %s" % (sub.split(".")[-1], m.short if m else None))
+    ctx.floor("concrete symmetric algorithms", n, 12)
+
+
+@R.clause("C11.s", "sibling sweep: overrides of the protect/unprotect customisation hooks (reported, not decided)", tier="thorough")
+def s(ctx):
+    prog = ctx.prog
+    for base, hook in (("aiocoap.oscore.CanProtect", "_get_sender_key"), ("aiocoap.oscore.CanUnprotect", "_get_recipient_key"), ("aiocoap.oscore.CanUnprotect", "_post_decrypt_checks"),
+                       ("aiocoap.oscore.CanProtect", "protect"), ("aiocoap.oscore.CanUnprotect", "unprotect"), ("aiocoap.oscore.CanProtect", "_split_message")):
+        over = [c for c in prog.subclasses(base) if c != base and hook in prog.classes[c].methods]
+        if hook in ("protect", "unprotect", "_split_message"):
+            ctx.ob("no subclass replaces %s (the clauses speak about the one implementation)" % hook, not over, None, None, construct="overrides of %s" % hook, detail=", ".join(over))
+        elif over:
+            ctx.note("SIBLING-NOTE %s is overridden by %s; C11.a/C11.f are decided for the default hook only" % (hook, ", ".join(x.split(".")[-1] for x in over)))
